@@ -30,10 +30,10 @@ NLRnd(seed, n)   ==
          s   == IF sel = << >> THEN << o[1 + (Hh(seed, i, 0) % Len(o))] >> ELSE sel
      IN  IF Hh(seed, i, 99) % 2 = 0 THEN s ELSE RevSeq(s)]
 
-NSeeds == IF IsM("s2") THEN (IF Thorough THEN 1200 ELSE 140)
-          ELSE IF IsM("tetra") THEN (IF Thorough THEN 4000 ELSE 500)
-          ELSE IF IsM("nematic") THEN (IF Thorough THEN 5000 ELSE 600)
-          ELSE (IF Thorough THEN 6000 ELSE 800)
+NSeeds == IF IsM("s2") THEN (IF Thorough THEN 3000 ELSE 140)
+          ELSE IF IsM("tetra") THEN (IF Thorough THEN 10000 ELSE 500)
+          ELSE IF IsM("nematic") THEN (IF Thorough THEN 12000 ELSE 600)
+          ELSE (IF Thorough THEN 15000 ELSE 800)
 
 (***************************************************************************)
 (* s2                                                                      *)
